@@ -67,6 +67,10 @@ class ConnectionState:
         self._capability = list(config.initial_capability)
 
     @property
+    def authenticated(self) -> bool:
+        return self._session is not None
+
+    @property
     def session(self) -> SessionInterface:
         if self._session is None:
             # Commands using this attribute should be state-bound to only be
